@@ -316,12 +316,17 @@ CHECKS.update({
         'Theorems C18_* prove for every list of path pieces that each listed piece has start <= end, that the listing is '
         'sorted by (start, end) and is a permutation of the pieces (none lost or invented), that each names the cell of a '
         'piece, that contiguous pieces telescope to (last end - first start), and that column k of the data prepared for '
-        'plotting is the column of piece k\'s cell.  Per run an exact rational oracle clips every leg of generated simple '
+        'plotting is the column of piece k\'s cell; C18_measured_from_last_vertex_before, _picked_vertex_starts_the_leg, '
+        '_every_point_measured, _accumulated_monotone and _path_order_is_distance_order (model TransectDist.v of Transect.points / '
+        'distance_along_line) prove that a point is measured from the last path vertex at or before it, that accumulated '
+        'distances never decrease, and hence that order along the path is order of the reported distance.  Per run an exact rational oracle clips every leg of generated simple '
         'polylines (across, inside / outside ends, bends that leave and re-enter, along a cell edge in either direction, '
         'through a vertex, missing) against every cell of generated grids and meshes with holes; the implementation\'s '
         'pieces must cover per cell exactly the same part of the path (coordinates within 1e-9 degrees), lie within their '
         'cell, name its linear and native index, be listed by increasing distance, share their distance where they meet, '
-        'and be ordered as the model orders the exact positions; prepare_data_array_for_transect is compared with the raw '
+        'and be ordered as the model orders the exact positions; the vertex each end of a piece is measured from is '
+        'computed by the model from the vertices\' normalised positions and the reported distance must be that vertex\'s '
+        'distance plus the geodesic distance from it; prepare_data_array_for_transect is compared with the raw '
         'array at every depth.',
         'Trusted: Coq kernel; model Transect.v; the python clipping oracle (exact Fractions).  PARTIAL: containment and '
         'coverage are decided per run against the oracle with a 1e-9 degree tolerance (GEOS constructs the cut points in '
